@@ -629,7 +629,8 @@ def c16(v, tier):
     write(os.path.join(sbL["srv"], "L.bin"), contentL)
     with N.Server(bins["tftpd"], sbL["srv"], dup=254, logdir=sbL["logs"]) as srvL:
         evals += 1
-        copies, data, note = ack_every_copy_download(srvL.addr, "L.bin", [("windowsize", 5), ("timeout", 1)], 255, budget_s=25)
+        # (blksize 1024: 255 copies of one block are more than a quarter of a megabyte - a default socket buffer is smaller)
+        copies, data, note = ack_every_copy_download(srvL.addr, "L.bin", [("windowsize", 5), ("timeout", 1), ("blksize", 1024)], 255, budget_s=25)
         finished = bool(copies) and "giving up" not in note and len(data) == len(contentL)
         too_many = {k: c for k, c in copies.items() if c > 255}
         wrong = too_many or ({k: c for k, c in copies.items() if c != 255} if finished else {})
@@ -640,6 +641,21 @@ def c16(v, tier):
             v.violation("C16/net/data-copies/N254", f"N=254 windowsize 5 timeout 1: copies per block {wrong} (expected 255 each) {note}", replay)
         elif data != contentL:
             v.violation("C16/net/content/N254", f"N=254 windowsize 5: download differs ({len(data)} of {len(contentL)} bytes) {note}", replay)
+    # the largest block size: N+1 copies of one block exceed a default socket buffer from N = 3 on
+    sbB = ctx.sandbox("c16blk")
+    contentB = N.keyed_content("c16-blk", 65464 * 2 + 77)
+    write(os.path.join(sbB["srv"], "B.bin"), contentB)
+    for single in (False, True):
+        with N.Server(bins["tftpd"], sbB["srv"], single=single, dup=3, logdir=sbB["logs"]) as srvB:
+            evals += 1
+            first, copies, data, problems = count_copies_download(srvB.addr, "B.bin", 3, opts=(("blksize", 65464),))
+            cfgB = f"N=3,blksize=65464,{'single' if single else 'multi'}"
+            replay = {"engine": "net", "config": cfgB, "first_reply_copies": first, "data_copies": copies, "problems": problems}
+            if any(c != 4 for c in copies.values()) or not copies:
+                v.violation("C16/net/data-copies", f"{cfgB}: DATA copies per block {copies}, expected 4 each", replay)
+            if data != contentB:
+                v.violation("C16/net/content", f"{cfgB}: download differs ({len(data)} vs {len(contentB)} bytes)", replay)
+            info[cfgB] = "ok"
     for Nd in ((1, 2, 3) if thorough else (1, 2)):
         for single in (False, True):
             sb = ctx.sandbox("c16")
